@@ -249,7 +249,7 @@ var fillers = [][]string{nil, {"# a comment"}, {""}, {"   # indented comment", "
 func funcsRule(tier string) string {
 	return fmt.Sprintf("%d first definitions (bodies over {0},{1},{2},{key}, missing and lazy arguments, a rebinding @map, typed and constant-only helper arguments, text around statements) and %d second definitions calling the first (nested, inside a builtin, with a key argument, inside @map); "+
 		"every layout of a definition over its argument separators with up to 2 line breaks x 7 continuation styles (backslash, backslash + trailing comment, comment line or blank line inside the continuation, tab / no indentation, two blanks before the backslash) and an optional trailing comment, x 4 fillers (none, comment, blank, indented comment + blank) before and between definitions, loaded through LoadDefinitionsFile from a real file (one call site per layout) or LoadDefinitions, then TryAddFunctions as main.go does; "+
-		"call sites with 1..3 arguments from {2, a, 'a b', {0}, {1}, {key}, {sumi {0} 1}} (all pairs in the thorough tier), a nested call of the function itself, a call inside a builtin, inside @map and between text; 5 contexts; compared with the harness's tree-level inlining evaluated by the builtin table, for the optimising and the plain call-site build (tier %s); %s; %s", len(firstDefs()), len(secondDefs("f")), tier, longRule(tier), namesRule(tier))
+		"call sites with 1..3 arguments from {2, a, 'a b', {0}, {1}, {key}, {sumi {0} 1}} (all pairs in the thorough tier), a nested call of the function itself, a call inside a builtin, inside @map and between text; 5 contexts; compared with the harness's tree-level inlining evaluated by the builtin table, for the optimising and the plain call-site build (tier %s); %s; %s; %s", len(firstDefs()), len(secondDefs("f")), tier, longRule(tier), namesRule(tier), deliveryRule(tier))
 }
 
 func clearAdditional() {
@@ -387,6 +387,7 @@ func (e *env) funcsPhase(unit *int64) {
 	}
 	e.longPhase(unit)
 	e.namesPhase(unit)
+	e.deliveryPhase(unit)
 }
 
 func (e *env) funcsReplay(c Case) {
@@ -400,7 +401,7 @@ func (e *env) funcsReplay(c Case) {
 	}
 	// rebuild from the recorded texts; the definitions are recovered by name
 	var defs []ndef
-	all := firstDefs()
+	all := append(firstDefs(), deliveryDefs()...)
 	for _, f := range firstDefs() {
 		all = append(all, secondDefs(f.name)...)
 	}
@@ -427,7 +428,7 @@ func (e *env) funcsReplay(c Case) {
 			}
 		}
 	}
-	e.funcsCompare(cmpIn{defs: defs, callNode: callNode, text: uq(c.File), plain: plain, callT: uq(c.Template), inlineT: uq(c.Inline), onDisk: c.OnDisk, id: c.Body, layoutDesc: "replayed"})
+	e.funcsCompare(cmpIn{defs: defs, callNode: callNode, text: uq(c.File), plain: plain, callT: uq(c.Template), inlineT: uq(c.Inline), onDisk: c.OnDisk, id: c.Body, layoutDesc: "replayed", deliv: c.Delivery})
 }
 
 func (e *env) funcsOne(fc funcsCase) {
@@ -500,6 +501,7 @@ type cmpIn struct {
 	id         string
 	layoutDesc string
 	long       *longCase // the long-line family: replayed from its parameters, texts abbreviated in reports
+	deliv      *delivery // the delivery family: the file reaches the loader through a named pipe / a chunking io.Reader
 }
 
 func (e *env) funcsCompare(in cmpIn) {
@@ -509,7 +511,7 @@ func (e *env) funcsCompare(in cmpIn) {
 		if in.long != nil {
 			return Case{Part: "funcs", Template: q(callT), Body: id, OnDisk: onDisk, Where: where, Long: in.long}
 		}
-		return Case{Part: "funcs", Template: q(callT), File: q(text), Plain: q(plain), Inline: q(inlineT), Body: id, OnDisk: onDisk, Where: where}
+		return Case{Part: "funcs", Template: q(callT), File: q(text), Plain: q(plain), Inline: q(inlineT), Body: id, OnDisk: onDisk, Where: where, Delivery: in.deliv}
 	}
 	// what a report shows of the file and of values (the long-line family's are abbreviated)
 	show, showV := text, func(s string) string { return strconv.Quote(s) }
@@ -549,12 +551,43 @@ func (e *env) funcsCompare(in cmpIn) {
 	}
 	var fns map[string]expressions.KeyBuilderFunction
 	var err error
-	if pi := catch(func() { fns, err = loadFuncs(text, onDisk) }); pi != nil {
+	loadWhat, feedNote := "the definitions load when written one per line but", ""
+	if in.deliv != nil {
+		// the delivery family: the very same bytes must load from a complete regular file first
+		var wholeFns map[string]expressions.KeyBuilderFunction
+		var wholeErr error
+		if pi := catch(func() { wholeFns, wholeErr = loadFuncs(text, true) }); pi != nil || wholeErr != nil || !has(wholeFns) || len(wholeFns) != len(names) {
+			w.Add("funcs_delivery_text_not_loadable_from_a_regular_file", 1)
+			w.Eval(false)
+			return
+		}
+		loadSig = "C10/funcs/delivery-changes-what-is-loaded/" + in.deliv.class()
+		layoutDesc += "; delivered as " + in.deliv.describe(text)
+		loadWhat = "the same bytes load from a complete regular file but"
+	}
+	hung := false
+	if pi := catch(func() {
+		if in.deliv != nil {
+			fns, err, hung, feedNote = loadFuncsVia(text, in.deliv)
+			return
+		}
+		fns, err = loadFuncs(text, onDisk)
+	}); pi != nil {
 		// the same definitions load when written one per line
 		w.Eval(true)
 		w.Violation(loadSig,
-			fmt.Sprintf("the definitions load when written one per line but loading this layout (%s) panics: %v\nfile:\n%s", layoutDesc, pi.val, show), mk("load"))
+			fmt.Sprintf("%s loading this layout (%s) panics: %v\nfile:\n%s", loadWhat, layoutDesc, pi.val, show), mk("load"))
 		return
+	}
+	if hung {
+		w.Eval(true)
+		w.Violation("C10/funcs/hang/"+id,
+			fmt.Sprintf("%s loading it as %s had not returned after 60 s\n%s\nfile:\n%s", loadWhat, layoutDesc, feedNote, show), mk("load"))
+		return
+	}
+	if in.deliv != nil {
+		w.Add("funcs_delivery_cases", 1)
+		w.Add("funcs_delivery_"+in.deliv.class(), 1)
 	}
 	if err != nil || !has(fns) || len(fns) != len(names) {
 		got := make([]string, 0, len(fns))
@@ -564,6 +597,9 @@ func (e *env) funcsCompare(in cmpIn) {
 		sort.Strings(got)
 		w.Eval(true)
 		what := "the definitions load when written one per line but not in this layout"
+		if in.deliv != nil {
+			what = "the same bytes load from a complete regular file but not through this delivery: " + feedNote
+		}
 		if in.long != nil {
 			what = "every definition of this file is short enough to load when its lines are short (and its body compiles inline), but this file does not load as written: a definition is missing, truncated into another name, or the loader reported an error"
 			for i := range got {
